@@ -115,6 +115,8 @@ def hazards(ctx: Ctx, funcs, clause: str = "S0"):
     from rules.excmatch import ArgcheckRaises, mismatched_handlers
     from rules.boundary import length_equals_position
     from rules.deadformal import dead_formals
+    from rules.flatindex import flat_index_sites
+    from rules.cursor import cursor_skips
     from sa.astutil import u
     col = ctx.col
     n = 0
@@ -181,6 +183,23 @@ def hazards(ctx: Ctx, funcs, clause: str = "S0"):
                        (f"`{u(bcs[0]['node'])}` caches {bcs[0]['why']} by reference: after an in-place edit by the caller the "
                         f"validity test compares the object with itself and a stale result is served") if bcs else "", rel,
                        bcs[0]["node"].lineno if bcs else f.line, sample=[(x["attr"], x["why"]) for x in cs], nontrivial=False)
+        cs_ = cursor_skips(f)
+        if cs_:
+            bcs_ = [x for x in cs_ if not x["ok"]]
+            col.ob("G35", clause, f"{where}::delete-at-cursor-keeps-the-cursor", not bcs_,
+                   (f"the scan at line {bcs_[0]['node'].lineno} removes the element at `{bcs_[0]['index']}` ({bcs_[0]['dels'][0]}) and "
+                    f"advances `{bcs_[0]['index']}` in the same iteration ({bcs_[0]['path']}): the element that moved into the "
+                    f"cursor position is never compared, so after two adjacent removals the remaining entries are paired off "
+                    f"by one") if bcs_ else "", rel, bcs_[0]["node"].lineno if bcs_ else f.line,
+                   sample=[(x["index"], x["dels"], x["n_paths"]) for x in cs_], nontrivial=False)
+        fi = flat_index_sites(f)
+        if fi:
+            bfi = [x for x in fi if not x["ok"]]
+            col.ob("G34", clause, f"{where}::flat-index-stride-is-the-column-count", not bfi,
+                   (f"`{u(bfi[0]['node'])[:80]}` addresses a table of shape ({bfi[0]['rows']}, {bfi[0]['cols']}) through its flattened "
+                    f"form with `{bfi[0]['stride']}`: the row stride must be the number of columns `{bfi[0]['cols']}`; the lookup is "
+                    f"only right for square tables") if bfi else "", rel, bfi[0]["node"].lineno if bfi else f.line,
+                   sample=[(x["stride"], x["cols"]) for x in fi], nontrivial=False)
         df = dead_formals(f)
         col.ob("G33", clause, f"{where}::every-accepted-option-is-read", not df,
                (f"`{df[0]}` is accepted by {f.qualname} but nothing in its body reads it: whatever the caller passes is silently "
